@@ -28,6 +28,7 @@ FNS_PER_MODULE = 8
 
 # priority order matters only among the ids that are listed as "known"
 FINDINGS = [
+    ("F-C06-9", lambda f, fl, ren, params: "call_kw_nopos" in f),
     ("F-C06-3", lambda f, fl, ren, params: "cmp_eqne" in f),
     ("F-C06-4", lambda f, fl, ren, params: (ren is not None and ren != params and set(ren) & set(params)) or "call_user" in f),
     ("F-C06-5", lambda f, fl, ren, params: "tuple_assign" in f),
@@ -97,6 +98,29 @@ def make_jobs(ctx, nfn: int, wd: Path):
         ctx.extra_cov["mxlpy_fns_functions"] = len(fn_names)
     except Exception as e:  # noqa: BLE001
         ctx.notes.append(f"mxlpy.fns stratum unavailable: {e!r}")
+    # every legal call shape (positional / keyword / defaults left out) of the helper signatures (seed-independent)
+    exprs = ["x", "y", "z", "(x + y)", "(y * 2)", "(z - 1)"]
+    srcs, names = [], []
+    for sig in L.SIGS:
+        vals = {p: exprs[i] for i, (p, _) in enumerate(sig[1] + sig[2])}
+        for shape in L.call_shapes(sig):
+            n = f"k{len(names)}"
+            call = L.render_call("hp." + sig[0], shape, vals)
+            body = f"    return {call}" if len(names) % 3 else f"    if x > y:\n        return {call} + x\n    return {call}"
+            srcs.append(f"def {n}(x, y, z):\n{body}\n")
+            names.append(n)
+    ctx.extra_cov["call_shape_programs"] = len(names)
+    for m in range(0, len(names), 16):
+        mod = f"c06m_k{m // 16}"
+        jobs.append({"workdir": str(wd), "mod": mod, "helper": helper,
+                     "sources": {helper: L.HELPER_SRC, mod: g0.header() + "\n\n".join(srcs[m:m + 16])},
+                     "fns": names[m:m + 16], "seed": 3, "npoints": 8, "known_keys": ctx.known_keys,
+                     "renamings": {n: [None, ["z", "x", "y"]] for n in names[m:m + 16]}})
+    # the helper signatures themselves, with fewer model_args than parameters
+    jobs.append({"workdir": str(wd), "mod": helper, "helper": helper, "sources": {helper: L.HELPER_SRC},
+                 "fns": [sg[0] for sg in L.SIGS], "seed": 4, "npoints": 10, "known_keys": ctx.known_keys,
+                 "renamings": {"hdef": [None, ["a"], ["b", "a"], ["p", "q", "r"], ["d", "c", "b", "a"]],
+                               "hone": [None, ["m0"], ["r", "a"]], "hkw": [None, ["m0"]], "hmd": [None, ["b", "a"], ["b", "a", "c"]]}})
     # the exhaustive control-flow stratum (seed-independent)
     bodies = L.exhaustive_bodies()
     ctx.extra_cov["exhaustive_control_flow_programs"] = len(bodies)
@@ -130,7 +154,7 @@ def requests_for(res):
     for ob in res["obs"]:
         ren = ob["rename"]
         syms = res["params"] if ren is None else ren
-        pts = [{"env": [[s, v] for s, v in zip(syms, p)], "args": list(p)} for p in res["points"]]
+        pts = [{"env": [[s, v] for s, v in zip(syms, p)], "args": list(p[: len(syms)])} for p in res["points"]]
         reqs.append({"op": "c06", "prog": res["prog"], "fn": res["q"],
                      "margs": None if ren is None else [["sym", s] for s in ren], "points": pts})
     return reqs
@@ -177,10 +201,10 @@ def judge_fn(ctx, job, res, resps):
         ctx.notes.append(f"encoder failed on {res['fn']}: {res['error']}")
         return
     feats = set(res["features"])
-    py = res["py"]
-    mask = [i for i, v in enumerate(py) if v not in ("undef", "nonnum", "inexact")]
     for ob, resp in zip(res["obs"], resps if resps is not None else [None] * len(res["obs"])):
         ren = ob["rename"]
+        py = ob.get("py", res["py"])
+        mask = [i for i, v in enumerate(py) if v not in ("undef", "nonnum", "inexact")]
         case = {"sources": {} if job.get("external") else
                 {job["helper"]: job["sources"][job["helper"]], job["mod"]: res["min_src"]},
                 "external": bool(job.get("external")),
@@ -238,7 +262,8 @@ def judge_fn(ctx, job, res, resps):
                 M = None
         cands = [fid for fid, pred in FINDINGS if pred(feats, flags, ren, res["params"])]
         finding = next((fid for fid in cands if fid in ctx.known), None)
-        in_domain = bool(flags.get("progOk"))
+        # a call with keyword arguments only has no Python semantics in the Lean model: outside the theorem's domain
+        in_domain = bool(flags.get("progOk")) and "call_kw_nopos" not in feats
         nontrivial = status == "expr" and bool(feats & {"if", "ifexp", "call_user", "tuple_assign"} or "=" in res["src"])
         ctx.count({"src": res["src"], "rename": ren}, "", nontrivial)
         for f in feats:
